@@ -221,6 +221,8 @@ func (f *g2lFn) findMutated(fd *ast.FuncDecl) {
 			}
 		case *ast.IncDecStmt:
 			mark(x.X)
+		case *ast.ExprStmt:
+			f.markExprStmt(x) // go2lean_buffer.go
 		case *ast.RangeStmt:
 			if x.Tok == token.ASSIGN {
 				if x.Key != nil {
@@ -571,7 +573,7 @@ func (f *g2lFn) forStmt(x *ast.ForStmt, ind int) []string {
 	if x.Init != nil {
 		out = append(out, f.stmt(x.Init, ind)...)
 	}
-	if x.Post != nil && g2lHasBranch(x.Body.List, token.CONTINUE) {
+	if x.Post != nil && g2lHasBranch(x.Body.List, token.CONTINUE) && !f.continueWithPostOK() { // go2lean_buffer.go
 		f.fail("`continue` in a loop with a post statement")
 	}
 	if x.Cond == nil && g2lHasBranch(x.Body.List, token.BREAK) {
@@ -584,6 +586,8 @@ func (f *g2lFn) forStmt(x *ast.ForStmt, ind int) []string {
 		cs = f.src(x.Cond)
 		out = append(out, fmt.Sprintf("%sif ¬ %s then break", g2lInd(ind+1), g2lPar(f.propExpr(x.Cond))))
 	}
+	f.pushPost(x.Post) // go2lean_buffer.go: emitted before each `continue` of this loop
+	defer f.popPost()
 	f.inLoop++
 	sw := f.inSw
 	f.inSw = 0
@@ -755,6 +759,11 @@ func (f *g2lFn) stmt(s ast.Stmt, ind int) []string {
 			}
 		}
 		return out
+	case *ast.ExprStmt:
+		if f.g.bytesOn() { // go2lean_buffer.go (byte mode): buffer writes, copy, sort.SliceStable
+			return f.exprStmt(x, ind)
+		}
+		// otherwise: stmtOwn below, or outside the subset
 	case *ast.ReturnStmt:
 		return f.ret(x, ind)
 	case *ast.IfStmt:
@@ -779,7 +788,7 @@ func (f *g2lFn) stmt(s ast.Stmt, ind int) []string {
 			if f.inLoop == 0 {
 				f.fail("`continue` outside a loop")
 			}
-			return []string{g2lInd(ind) + "continue"}
+			return append(f.beforeContinue(ind), g2lInd(ind)+"continue") // go2lean_buffer.go
 		}
 	}
 	if out, ok := f.stmtOwn(s, ind); ok { // go2lean_own.go: call statements of functions with in-out parameters
@@ -870,9 +879,11 @@ func (g *g2l) translateFunc(key string) (u *g2lUnit) {
 		f.fail("type parameters")
 	}
 	ast.Inspect(fd.Body, func(n ast.Node) bool {
-		switch n.(type) {
+		switch x := n.(type) {
 		case *ast.FuncLit:
-			f.fail("function literal")
+			if !f.allowedFuncLit(fd, x) { // go2lean_buffer.go: the comparator of sort.SliceStable
+				f.fail("function literal")
+			}
 		case *ast.GoStmt, *ast.DeferStmt, *ast.SelectStmt, *ast.SendStmt, *ast.TypeSwitchStmt, *ast.LabeledStmt:
 			f.fail("statement %T", n)
 		}
@@ -886,11 +897,12 @@ func (g *g2l) translateFunc(key string) (u *g2lUnit) {
 	if sig.Variadic() && !g.refsOn() && !g.env().Variadic { // go2lean_refs.go: the last parameter is the slice; go2lean_env.go
 		f.fail("variadic function")
 	}
-	// a function without result: three extensions translate it, each for the configurations that ask for it
+	// a function without result: four extensions translate it, each for the configurations that ask for it
 	void := sig.Results().Len() == 0 && g.effectsOn() // go2lean_effects.go: the in-out parameters alone are the result
 	unitVoid := sig.Results().Len() == 0 && g.ownOn() // go2lean_own.go: Unit × the in-out parameters
 	envVoid := sig.Results().Len() == 0 && g.envOn()  // go2lean_env.go: the in-out parameters alone, a return appended to the body
-	if sig.Results().Len() == 0 && (!(void || unitVoid || envVoid) || len(g.inOutFor(key)) == 0) {
+	effectOnly := f.effectOnlyOK(sig)                 // go2lean_buffer.go (byte mode): Unit × the in-out parameters
+	if sig.Results().Len() == 0 && (!(void || unitVoid || envVoid || effectOnly) || len(g.inOutFor(key)) == 0) {
 		f.fail("no result (a function without result is only called for its effect)")
 	}
 	if fd.Type.Results != nil {
@@ -947,7 +959,7 @@ func (g *g2l) translateFunc(key string) (u *g2lUnit) {
 			fd = &fdc
 		}
 	}
-	if !void && !unitVoid && !g2lTerminates(fd.Body.List) {
+	if !void && !unitVoid && !effectOnly && !g2lTerminates(fd.Body.List) {
 		f.fail("the body does not end in a return on every path the translator recognises")
 	}
 	head := fmt.Sprintf("def %s %s : %s :=", u.lean, strings.Join(params, " "), resT)
@@ -970,6 +982,9 @@ func (g *g2l) translateFunc(key string) (u *g2lUnit) {
 		if unitVoid {
 			vr, _ := f.voidReturn(1)
 			lines = append(lines, vr...)
+		}
+		if effectOnly {
+			lines = append(lines, f.effectOnlyReturn()) // go2lean_buffer.go
 		}
 		u.text = head + " Id.run do\n" + strings.Join(lines, "\n") + "\n"
 	}
